@@ -554,8 +554,8 @@ class Packet(object):
         if length > len(datagram):
             raise PacketError("length error")
 
-        if key and hdr.pkt_type not in (PacketType.CLIENT_HELLO, PacketType.SERVER_HELLO):
-            # packet is encrypted, decrypt using the given key
+        if key:
+            # every packet is encrypted once a key has been agreed on
             length += PacketHeader.TAG_SIZE
             iv = datagram[:PacketHeader.IV_SIZE]
             aad = datagram[:PacketHeader.SIZE]
@@ -1273,6 +1273,14 @@ class ConnectionBase(object):
         return datagram
 
     def _recv_datagram(self, hdr, datagram):
+
+        # without a key the only packet that can be received is a hello
+        # containing nothing but the handshake message
+        if not self.session_key_bytes:
+            expected = PacketType.CLIENT_HELLO if self.isServer else PacketType.SERVER_HELLO
+            if hdr.pkt_type != expected or hdr.count != 1:
+                self.stats.dropped += 1
+                return False
 
         # first, decrypt or check the CRC
         # ensure that this packet validates correctly
